@@ -25,6 +25,7 @@ func defC07(mode int, late bool) *ph.Def {
 			{Name: "1", Kind: ph.Bool},                  // a digit as option name: `-1` is an option, not a number
 			{Name: "io", Kind: ph.IntOpt, DefI: 4},      // optional numeric value
 			{Name: "fl", Kind: ph.FltS, Min: 1, Max: 2}, // numeric slice with room for a second value
+			{Name: "l", Kind: ph.StrS, Min: 1, Max: 1},  // string list: an attached `a,b` is one element however it is spelled
 		},
 		Cmds: []*ph.CmdDef{{Name: "c", Opts: []ph.OptDef{{Name: "d", Kind: ph.Bool}}}},
 	}}
